@@ -4,4 +4,4 @@ Require Import ExtrOcamlBasic.
 From OFGA Require Import Query.Authzen.
 Extraction Language OCaml.
 Extraction "c32_model.ml" evaluation evaluations subject_search resource_search action_search
-  merge_properties_to_context build_check_request model_id_from_header lookup length.
+  merge_properties_to_context build_check_request model_id_from_header lookup length subject_search_map resource_search_map.
